@@ -6,8 +6,8 @@ from ..riverlike import RealScenario, gen_real_cfg
 from ..probes import InjectedFault
 from ..explref import PfiRef, Mismatch, compare
 
-SHARDS = {"quick": 1, "thorough": 16}
-N_CFG = {"quick": 900, "thorough": 5000}
+SHARDS = {"quick": 3, "thorough": 16}
+N_CFG = {"quick": 300, "thorough": 5000}
 
 
 def run_config(run, cfg, seed, tag):
